@@ -13,7 +13,9 @@ import (
 
 // C19: IDom / Dom / DomFrontier on a digraph given as adjacency lists, for a list of roots.
 // Line: 19 n {len succ...}*n  nroots { root nil stI [n]idom stD numNodes [n]{IDom(k) [..]In(k) [..]Out(k)}
-//                                      stF [n][..]df  mutated }*
+//
+//	stF [n][..]df  mutated }*
+//
 // st*: 0 = returned, 2 = panicked (then the lists that follow are empty).
 type c19Case struct {
 	G     [][]int `json:"g"`
@@ -563,7 +565,7 @@ func c19Gen(tier string, rng *rand.Rand, emit func(interface{})) {
 			g[base+4] = []int{base + 1}
 			g[base+5] = []int{}
 			g[base+6] = []int{base + 3, base + 6} // unreachable
-			g[rng.Intn(1000)] = []int{base + 1}    // unreachable, low id
+			g[rng.Intn(1000)] = []int{base + 1}   // unreachable, low id
 			roots := []int{base, base + 3}
 			if rep == 1 {
 				roots = []int{base + 4}
